@@ -10,6 +10,7 @@ THEOREMS = [
     "Astm.C05.closes_exactly_at_deadline", "Astm.C05.silent_before_deadline", "Astm.C05.idle_forever_after_end",
     "Astm.C05.fresh_full_timeout", "Astm.C05.timeout_discards_without_delivery", "Astm.C05.never_closed_if_paced",
     "Astm.C05.example_timeline", "Astm.tstep_refines",
+    "Astm.C05.intermediate_instants_are_transparent", "Astm.C05.idle_event_changes_nothing_later",
     "Astm.C05.anchored_code_keeps_no_other_state", "Astm.C05.anchored_code_keeps_its_signatures",
 ]
 RULE = ("timed histories on a fake event loop with an integer virtual clock, and on asyncio's own selector event loop with "
@@ -32,10 +33,16 @@ def tev_hex(e):
     return "%s:%d" % (e[0], e[1])
 
 
-def timed_history(r, timeout, ties=False):
+def model_tok(e):
+    """the model's alphabet: a flow-control callback (p = pause_writing, w = resume_writing) is time passing, nothing else"""
+    return "i:%d" % e[1] if e[0] in ("p", "w") else tev_hex(e)
+
+
+def timed_history(r, timeout, ties=False, flow=True):
     T = timeout
     t = 0
     evs = []
+    last_unit = None
     kinds = ["ENQ", "final", "final", "inter", "corrupt", "EOT", "EOT", "garb", "ACK", "stxgarb", "ENQ", "crlf", "crlf", "crlf+ctl",
              "empty", "glued"]
     big = False
@@ -57,6 +64,8 @@ def timed_history(r, timeout, ties=False):
         if cls == "just-below":
             big = True
         t += gap
+        if not ties and last_unit is not None and t == last_unit + T and t != last_unit + gap:
+            t += 1        # (a flow-control event in between must not turn the gap into a tie)
         k = r.choice(kinds)
         u = gens.unit(r, k)
         if gens.is_vendor_line(u):
@@ -65,6 +74,14 @@ def timed_history(r, timeout, ties=False):
             evs.append(("l", t))
         else:
             evs.append(("r", t, u))
+            last_unit = t
+            if flow and r.random() < 0.12:
+                # the transport's flow-control callbacks (write buffer above / below its marks) are no received units:
+                # they neither grant a fresh timeout nor arm a timer
+                dt = r.choice([0, 0, 1, T // 2])
+                if dt < T:
+                    t += dt
+                    evs.append((r.choice(["p", "w", "w"]), t))
     # final idle period
     t += r.choice([0, max(T - 1, 0), T + 1, 5 * T]) if not ties else r.choice([T, 0])
     evs.append(("i", t))
@@ -102,7 +119,7 @@ def run_timed(stream, hs, ctx, in_oracle=True, conn_cls=None):
     lines = []
     for fmt, timeout, evs, meta in hs:
         tm = timeout if timeout is not None else "@"
-        lines.append("trecv %s %s %s" % (fmt, tm, " ".join(tev_hex(e) for e in evs)))
+        lines.append("trecv %s %s %s" % (fmt, tm, " ".join(model_tok(e) for e in evs)))
     default_timeout = None
     if ctx.driver_ok:
         default_timeout = int(common.drive(["default-timeout"])[0].split()[1])
@@ -142,6 +159,13 @@ def run_timed(stream, hs, ctx, in_oracle=True, conn_cls=None):
                 ob = c.event(("d", e[2]))
             elif e[0] == "l":
                 ob = c.event(("L",))
+            elif e[0] in ("p", "w"):
+                fc = c.event(("P",) if e[0] == "p" else ("R",))
+                stream.count("flow-control callback")
+                if in_oracle and (fc["writes"] or fc["closes"] or fc["exc"] or fc["delivered"]):
+                    stream.fail(dict(case, at=i), "event %d: a flow-control callback of the transport wrote / closed / raised / "
+                                "delivered (%r)" % (i, {k_: fc[k_] for k_ in ("writes", "closes", "exc")}),
+                                signature="%s/flow-control" % stream.name)
             if ok_oracle:
                 exp_fired, exp = ref.expect(e)
                 why = None
@@ -258,6 +282,8 @@ def run(ctx):
                 ob = cn.event(("d", e[2]))
             elif e[0] == "l":
                 ob = cn.event(("L",))
+            elif e[0] in ("p", "w"):
+                cn.event(("P",) if e[0] == "p" else ("R",))
             exp_fired, exp = refs[c].expect(e)
             why = None
             if fired != exp_fired:
